@@ -64,7 +64,7 @@ Print Assumptions C02_is_multiple_of.
 (** ** word-level as-is models of the division kernels (any word size w > 0, any length);
        num-modular's reciprocal division and the multiplication kernel enter through their contracts *)
 From Dashu Require Import Base.Words Int.DivWordModel Int.DivWordProofs Int.DivSimpleProofs Int.DivLargeProofs
-  Int.DivDCProofs Int.DivReprProofs Int.DivContracts Int.DivWordInst Int.DivWordInstProofs.
+  Int.DivDCProofs Int.DivReprProofs Int.DivDCTotal Int.DivConstProofs Int.DivContracts Int.DivWordInst Int.DivWordInstProofs.
 
 (** div_by_word_in_place: the rhs = 1 and power-of-two shortcuts and the normalised 2-by-1 loop *)
 Theorem C02_div_by_word : forall w, 0 < w -> forall div2by1, contract_2by1 w div2by1 ->
@@ -134,8 +134,68 @@ Theorem C02_repr_div_rem_sound : forall w, 0 < w -> forall div2by1 div3by2 div4b
 Proof. exact repr_div_rem_sound. Qed.
 Print Assumptions C02_repr_div_rem_sound.
 
-(** the contracts are satisfiable: for the instance the oracle runs the statement is unconditional *)
-Theorem C02_repr_div_rem_instance : forall w, 0 < w -> forall a b q r, 0 <= a -> 0 < b ->
-  i_repr_div_rem w a b = Ok (q, r) -> q = a / b /\ r = a mod b.
-Proof. exact i_repr_div_rem_sound. Qed.
-Print Assumptions C02_repr_div_rem_instance.
+(** total correctness of the kernel behind the switch: with fuel > divisor length the Burnikel-Ziegler model
+    returns (at most 4 add-backs per step, recursion depth < quotient length) and the result is right *)
+Theorem C02_div_rem_in_place_correct : forall w, 0 < w -> forall div3by2, contract_3by2 w div3by2 ->
+  forall mul_sub, contract_mul_sub w mul_sub -> forall T, (2 <= T)%nat ->
+  forall fuel lhs rhs, kernel_pre w lhs rhs -> (length rhs < fuel)%nat ->
+  exists res c, div_rem_in_place w div3by2 mul_sub T fuel lhs rhs = Ok (res, c) /\ kernel_post w lhs rhs res c.
+Proof. exact div_rem_in_place_correct. Qed.
+Print Assumptions C02_div_rem_in_place_correct.
+
+(** DivRem / Rem of two magnitudes through the whole size dispatch: total correctness *)
+Theorem C02_repr_div_rem_correct : forall w, 0 < w -> forall div3by2, contract_3by2 w div3by2 ->
+  forall mul_sub, contract_mul_sub w mul_sub -> forall T, (2 <= T)%nat ->
+  forall div2by1 div4by2, contract_2by1 w div2by1 -> contract_4by2 w div4by2 ->
+  forall a b, 0 <= a -> 0 < b -> repr_div_rem w div2by1 div3by2 div4by2 mul_sub T a b = Ok (a / b, a mod b).
+Proof. exact repr_div_rem_correct. Qed.
+Print Assumptions C02_repr_div_rem_correct.
+
+Theorem C02_repr_rem_correct : forall w, 0 < w -> forall div1by1 div2by1 div2by2 div3by2 div4by2,
+  contract_1by1 w div1by1 -> contract_2by1 w div2by1 -> contract_2by2 w div2by2 -> contract_3by2 w div3by2 -> contract_4by2 w div4by2 ->
+  forall mul_sub, contract_mul_sub w mul_sub -> forall T, (2 <= T)%nat ->
+  forall a b, 0 <= a -> 0 < b -> repr_rem w div1by1 div2by1 div2by2 div3by2 div4by2 mul_sub T a b = Ok (a mod b).
+Proof. exact repr_rem_correct. Qed.
+Print Assumptions C02_repr_rem_correct.
+
+(** division through a prepared ConstDivisor (stored normalised divisor + shift, Small x Single/Double arms,
+    rem_dword / rem_large) gives the same quotient and remainder as plain division, word level *)
+Theorem C02_const_div_rem_correct : forall w, 0 < w -> forall div2by1 div3by2 div4by2,
+  contract_2by1 w div2by1 -> contract_3by2 w div3by2 -> contract_4by2 w div4by2 ->
+  forall mul_sub, contract_mul_sub w mul_sub -> forall T, (2 <= T)%nat ->
+  forall a d, 0 <= a -> 0 < d -> const_div_rem w div2by1 div3by2 div4by2 mul_sub T a d = Ok (a / d, a mod d).
+Proof. exact const_div_rem_correct. Qed.
+Print Assumptions C02_const_div_rem_correct.
+
+Theorem C02_const_rem_correct : forall w, 0 < w -> forall div1by1 div2by1 div2by2 div3by2 div4by2,
+  contract_1by1 w div1by1 -> contract_2by1 w div2by1 -> contract_2by2 w div2by2 -> contract_3by2 w div3by2 -> contract_4by2 w div4by2 ->
+  forall mul_sub, contract_mul_sub w mul_sub -> forall T, (2 <= T)%nat ->
+  forall a d, 0 <= a -> 0 < d -> const_rem w div1by1 div2by1 div2by2 div3by2 div4by2 mul_sub T a d = Ok (a mod d).
+Proof. exact const_rem_correct. Qed.
+Print Assumptions C02_const_rem_correct.
+
+Theorem C02_const_equals_plain : forall w, 0 < w -> forall div1by1 div2by1 div2by2 div3by2 div4by2,
+  contract_1by1 w div1by1 -> contract_2by1 w div2by1 -> contract_2by2 w div2by2 -> contract_3by2 w div3by2 -> contract_4by2 w div4by2 ->
+  forall mul_sub, contract_mul_sub w mul_sub -> forall T, (2 <= T)%nat ->
+  forall a d, 0 <= a -> 0 < d ->
+  const_div_rem w div2by1 div3by2 div4by2 mul_sub T a d = repr_div_rem w div2by1 div3by2 div4by2 mul_sub T a d /\
+  const_rem w div1by1 div2by1 div2by2 div3by2 div4by2 mul_sub T a d = repr_rem w div1by1 div2by1 div2by2 div3by2 div4by2 mul_sub T a d.
+Proof. exact const_equals_plain. Qed.
+Print Assumptions C02_const_equals_plain.
+
+(** the contracts are satisfiable: for the instance the oracle extracts and runs the statements are unconditional *)
+Theorem C02_instance : forall w, 0 < w -> forall a b, 0 <= a -> 0 < b ->
+  i_repr_div_rem w a b = Ok (a / b, a mod b) /\ i_repr_rem w a b = Ok (a mod b) /\
+  i_const_div_rem w a b = Ok (a / b, a mod b) /\ i_const_rem w a b = Ok (a mod b).
+Proof. exact i_instance_correct. Qed.
+Print Assumptions C02_instance.
+
+(** the repaired defect F01 (commit 423c909: rem_dword of a full-width one-word ConstDivisor) stays refuted *)
+Theorem C02_const_rem_defective_refuted :
+  let a := (2 ^ 64 - 1) * 2 ^ 64 + 5 in let d := 2 ^ 64 - 1 in
+  norm1 64 d /\ lzw 64 1 d = 0 /\ 0 <= a < Words.B 64 * Words.B 64 /\
+  const_rem_single_unshifted_defective 64 (fun d a => (a / d, a mod d)) a d = Panic Undocumented /\
+  const_rem_single_unshifted_defective 64 (fun d a => (a / d, a mod d)) a d <> Ok (a mod d) /\
+  a mod d = 5.
+Proof. exact const_rem_single_unshifted_defective_refuted. Qed.
+Print Assumptions C02_const_rem_defective_refuted.
